@@ -128,6 +128,17 @@ pub struct Case {
     /// the amount argument is negative: nobody may be debited or credited "backwards", whoever signs
     #[serde(default)]
     pub negative_amount: bool,
+    /// entry-point sweep case (see sweep.rs); the other fields are ignored
+    #[serde(default)]
+    pub sweep: Option<crate::sweep::SweepCase>,
+    /// (with `without_grantor_allowance`, not expired) the grantor approved and then revoked by approving 0:
+    /// 1 with expiration 0, 2 with an expiration just passed, 3 with a future expiration; some ledgers passed before
+    #[serde(default)]
+    pub grantor_allowance_revoked: u8,
+}
+
+fn blank() -> Case {
+    Case { ep: EPS[0], principal: PRINCIPALS[0], with_allowance_for_counterparty: false, amount: 1, without_grantor_allowance: false, named_is_token_owner: false, grantor_allowance_expired: false, windows_open: false, negative_amount: false, sweep: None, grantor_allowance_revoked: 0 }
 }
 
 struct W<'a> {
@@ -177,6 +188,16 @@ fn build<'a>(case: &Case, named_is_probe: bool) -> W<'a> {
         let soon = env.ledger().sequence() + 5;
         s.token.approve(&counterparty, &named, &500, &soon);
         advance_ledgers(&env, 6);
+    } else if case.grantor_allowance_revoked % 4 != 0 {
+        s.token.approve(&counterparty, &named, &500, &exp);
+        advance_ledgers(&env, 10);
+        let now = env.ledger().sequence();
+        let e = match case.grantor_allowance_revoked % 4 {
+            1 => 0,
+            2 => now - 1,
+            _ => now + 100,
+        };
+        s.token.approve(&counterparty, &named, &0, &e);
     }
     if case.with_allowance_for_counterparty {
         // and the other way round: the counterparty holds an allowance from `named`
@@ -357,7 +378,7 @@ impl Property for C07 {
         "C07"
     }
     fn rule(&self) -> &'static str {
-        "every case = (one of 17 entry points that debit / burn / pay gas from / send as / consume for / deploy under the name of / execute as an operator a named address: token approve, transfer, transfer_from, burn, burn_from, mint_from; gas pay_gas, add_gas; gateway call_contract, validate_message; ITS deploy_interchain_token, deploy_remote_interchain_token, interchain_transfer (burn and lock paths), deploy_remote_canonical_token; operators execute; example send) x (one of 10 authoriser classes: the named address, its counterparty (recipient / allowance grantor / sender), the owner of the called contract, a stranger, nobody, the named address for other arguments, a contract naming itself without entries, a contract naming another address, every address argument aliased to the called contract itself or to the named address with nobody signing) x world state (with / without an allowance held by the counterparty; with / without / with an expired grantor's allowance for delegated spends; named address = an ordinary account or the token's owner/minter; amount 1..40 or its negative; ordinary state or every contract upgraded-but-not-migrated). The full 17x10 matrix is enumerated in every run for both allowance states; proptest samples amounts. Engine: the authorisation trees (incl. nested burn / gas-payment nodes) are recorded in a twin world with all auths mocked and replayed in a fresh identical world signed by exactly one principal. Oracle: success iff the named address authorised (or is the directly calling contract); every refusal leaves the ledger snapshot identical. non-trivial = authoriser is not simply the named address; distinct by Debug hash"
+        "every case = (one of 17 entry points that debit / burn / pay gas from / send as / consume for / deploy under the name of / execute as an operator a named address: token approve, transfer, transfer_from, burn, burn_from, mint_from; gas pay_gas, add_gas; gateway call_contract, validate_message; ITS deploy_interchain_token, deploy_remote_interchain_token, interchain_transfer (burn and lock paths), deploy_remote_canonical_token; operators execute; example send) x (one of 10 authoriser classes: the named address, its counterparty (recipient / allowance grantor / sender), the owner of the called contract, a stranger, nobody, the named address for other arguments, a contract naming itself without entries, a contract naming another address, every address argument aliased to the called contract itself or to the named address with nobody signing) x world state (with / without an allowance held by the counterparty; with / without / with an expired grantor's allowance for delegated spends; named address = an ordinary account or the token's owner/minter; amount 1..40 or its negative; ordinary state or every contract upgraded-but-not-migrated). The full 17x10 matrix is enumerated in every run for both allowance states; proptest samples amounts. Engine: the authorisation trees (incl. nested burn / gas-payment nodes) are recorded in a twin world with all auths mocked and replayed in a fresh identical world signed by exactly one principal. Oracle: success iff the named address authorised (or is the directly calling contract); every refusal leaves the ledger snapshot identical. non-trivial = authoriser is not simply the named address; distinct by Debug hash. A share of the random cases is an entry-point sweep (construction as described for C13: the exported functions of all shipped contracts read from the sources of the tree under test, a complete deployed system, pooled arguments - including well-formed signer sets nobody installed and proofs properly signed by the gateway's own signer set over digests that belong to no command -, every require_auth satisfied by the host's mock and recorded; entry points absent from the pinned inventory get 300 deterministic cases each); oracle: an account's balance of any of three tokens decreases only if that account is among the recorded signers or had granted an allowance to a recorded signer; non-trivial = the call succeeded"
     }
     fn fixed_is_exhaustive(&self) -> Option<&'static str> {
         Some("entry-point x authoriser matrix (17 x 10) x {with,without} counterparty allowance enumerated completely; amounts sampled")
@@ -366,7 +387,7 @@ impl Property for C07 {
         tier.pick(8000, 60000)
     }
     fn strategy(&self, _tier: Tier) -> BoxedStrategy<Case> {
-        (prop::sample::select(EPS.to_vec()), prop::sample::select(PRINCIPALS.to_vec()), any::<bool>(), 1u8..40, prop_oneof![3 => Just(false), 1 => Just(true)], prop_oneof![3 => Just(false), 1 => Just(true)])
+        let direct = (prop::sample::select(EPS.to_vec()), prop::sample::select(PRINCIPALS.to_vec()), any::<bool>(), 1u8..40, prop_oneof![3 => Just(false), 1 => Just(true)], prop_oneof![3 => Just(false), 1 => Just(true)])
             .prop_map(|(ep, principal, with_allowance_for_counterparty, amount, without_grantor_allowance, named_is_token_owner)| Case {
                 ep,
                 principal,
@@ -378,32 +399,43 @@ impl Property for C07 {
                 grantor_allowance_expired: without_grantor_allowance && amount % 2 == 0,
                 windows_open: amount % 5 == 0,
                 negative_amount: amount % 7 == 0,
+                sweep: None,
+                grantor_allowance_revoked: if without_grantor_allowance && amount % 2 == 1 { amount / 2 % 4 } else { 0 },
             })
-            .boxed()
+            .boxed();
+        match crate::sweep::strategy(crate::sweep::Rule::Spend) {
+            Some(sw) => prop_oneof![3 => direct, 1 => sw.prop_map(|s| Case { sweep: Some(s), ..blank() })].boxed(),
+            None => direct,
+        }
     }
     fn fixed_cases(&self, _tier: Tier) -> Vec<Case> {
-        let mut v = vec![];
+        let mut v: Vec<Case> = crate::sweep::fixed_cases(300).into_iter().map(|s| Case { sweep: Some(s), ..blank() }).collect();
         for ep in EPS {
             for p in PRINCIPALS {
                 for al in [false, true] {
-                    v.push(Case { ep, principal: p, with_allowance_for_counterparty: al, amount: 3, without_grantor_allowance: false, named_is_token_owner: false, grantor_allowance_expired: false , windows_open: false, negative_amount: false });
+                    v.push(Case { ep, principal: p, with_allowance_for_counterparty: al, amount: 3, without_grantor_allowance: false, named_is_token_owner: false, grantor_allowance_expired: false , windows_open: false, negative_amount: false, sweep: None, grantor_allowance_revoked: 0 });
                 }
                 if matches!(p, Principal::Nobody | Principal::Stranger | Principal::AllAddressesAliasCalledContract | Principal::ContractNamingOther) {
-                    v.push(Case { ep, principal: p, with_allowance_for_counterparty: false, amount: 3, without_grantor_allowance: false, named_is_token_owner: false, grantor_allowance_expired: false, windows_open: true, negative_amount: false });
+                    v.push(Case { ep, principal: p, with_allowance_for_counterparty: false, amount: 3, without_grantor_allowance: false, named_is_token_owner: false, grantor_allowance_expired: false, windows_open: true, negative_amount: false, sweep: None, grantor_allowance_revoked: 0 });
                 }
                 if matches!(p, Principal::Named | Principal::Counterparty) && ep.has_amount() {
-                    v.push(Case { ep, principal: p, with_allowance_for_counterparty: true, amount: 3, without_grantor_allowance: false, named_is_token_owner: false, grantor_allowance_expired: false, windows_open: false, negative_amount: true });
-                    v.push(Case { ep, principal: p, with_allowance_for_counterparty: true, amount: 3, without_grantor_allowance: false, named_is_token_owner: true, grantor_allowance_expired: false, windows_open: false, negative_amount: true });
+                    v.push(Case { ep, principal: p, with_allowance_for_counterparty: true, amount: 3, without_grantor_allowance: false, named_is_token_owner: false, grantor_allowance_expired: false, windows_open: false, negative_amount: true, sweep: None, grantor_allowance_revoked: 0 });
+                    v.push(Case { ep, principal: p, with_allowance_for_counterparty: true, amount: 3, without_grantor_allowance: false, named_is_token_owner: true, grantor_allowance_expired: false, windows_open: false, negative_amount: true, sweep: None, grantor_allowance_revoked: 0 });
                 }
                 // the named address is the token owner / a minter
-                v.push(Case { ep, principal: p, with_allowance_for_counterparty: false, amount: 3, without_grantor_allowance: false, named_is_token_owner: true, grantor_allowance_expired: false , windows_open: false, negative_amount: false });
+                v.push(Case { ep, principal: p, with_allowance_for_counterparty: false, amount: 3, without_grantor_allowance: false, named_is_token_owner: true, grantor_allowance_expired: false , windows_open: false, negative_amount: false, sweep: None, grantor_allowance_revoked: 0 });
                 if matches!(ep, Ep::TokTransferFrom | Ep::TokBurnFrom) {
                     // no allowance from the grantor: nobody's authorisation is enough
                     for owner in [false, true] {
                         for expired in [false, true] {
                             // amount 500 = the whole (expired) allowance; 3 = part of it
                             for amount in [3u8, 250] {
-                                v.push(Case { ep, principal: p, with_allowance_for_counterparty: false, amount, without_grantor_allowance: true, named_is_token_owner: owner, grantor_allowance_expired: expired , windows_open: false, negative_amount: false });
+                                v.push(Case { ep, principal: p, with_allowance_for_counterparty: false, amount, without_grantor_allowance: true, named_is_token_owner: owner, grantor_allowance_expired: expired , windows_open: false, negative_amount: false, sweep: None, grantor_allowance_revoked: 0 });
+                                if !expired {
+                                    for r in 1..4u8 {
+                                        v.push(Case { ep, principal: p, with_allowance_for_counterparty: false, amount, without_grantor_allowance: true, named_is_token_owner: owner, grantor_allowance_expired: false, windows_open: false, negative_amount: false, sweep: None, grantor_allowance_revoked: r });
+                                    }
+                                }
                             }
                         }
                     }
@@ -414,6 +446,9 @@ impl Property for C07 {
     }
 
     fn run(&self, case: &Case, cx: &mut Cx) -> Result<(), String> {
+        if let Some(sw) = &case.sweep {
+            return crate::sweep::run(sw, cx, crate::sweep::Rule::Spend);
+        }
         let ep = case.ep;
         let amount: i128 = if case.amount == 250 { 500 } else { case.amount as i128 };
         cx.label(&format!("{:?}", case.principal));
@@ -461,8 +496,11 @@ impl Property for C07 {
                 if case.without_grantor_allowance && matches!(ep, Ep::TokTransferFrom | Ep::TokBurnFrom) {
                     cx.count("must_fail");
                     cx.label("delegated_without_allowance");
+                if case.grantor_allowance_revoked % 4 != 0 && !case.grantor_allowance_expired {
+                    cx.label("allowance_revoked_by_approving_zero");
+                }
                     let snap0 = snapshot(env);
-                    ensure_p!(!call_via_probe(&w, &inv), "{:?}: a delegated spend by a contract succeeded although the holder has no usable allowance (never granted, or expired)", ep);
+                    ensure_p!(!call_via_probe(&w, &inv), "{:?}: a delegated spend by a contract succeeded although the holder has no usable allowance (never granted, expired, or revoked)", ep);
                     ensure_p!(snapshot(env) == snap0, "{:?}: refused call changed state", ep);
                     return Ok(());
                 }
@@ -499,6 +537,9 @@ impl Property for C07 {
                 // The grantor never approved the spender: the holder's consent is missing, so the
                 // delegated spend must fail whoever signs (the call cannot be recorded: it fails).
                 cx.label("delegated_without_allowance");
+                if case.grantor_allowance_revoked % 4 != 0 && !case.grantor_allowance_expired {
+                    cx.label("allowance_revoked_by_approving_zero");
+                }
                 let w = build(case, false);
                 let env = &w.s.env;
                 let inv = invocation(&w, ep, amount, false);
